@@ -148,12 +148,64 @@ pub fn to_witness_node(node: &ConstructNode, values: WitnessValues) -> Arc<Witne
         }
     }
 
+    /// Prune each witness value down to the type of its node in the Simplicity program.
+    ///
+    /// The Simplicity type of a witness node is inferred from the way the value is used.
+    /// It is smaller than the declared Simfony type if (parts of) the value are never inspected.
+    /// A Simplicity decoder infers exactly this smaller type,
+    /// so the witness data must not include the bits of the unused parts.
+    struct Pruner;
+
+    impl<J: Jet> Converter<node::Construct<J>, node::Construct<J>> for Pruner {
+        type Error = types::Error;
+
+        fn convert_witness(
+            &mut self,
+            data: &PostOrderIterItem<&WitnessNode<J>>,
+            witness: &Option<simplicity::Value>,
+        ) -> Result<Option<simplicity::Value>, Self::Error> {
+            match witness {
+                Some(value) => {
+                    let ty = data.node.arrow().target.finalize()?;
+                    Ok(value.prune(&ty))
+                }
+                None => Ok(None),
+            }
+        }
+
+        fn convert_disconnect(
+            &mut self,
+            _: &PostOrderIterItem<&WitnessNode<J>>,
+            _: Option<&Arc<WitnessNode<J>>>,
+            _: &Option<Arc<WitnessNode<J>>>,
+        ) -> Result<Option<Arc<WitnessNode<J>>>, Self::Error> {
+            Ok(None)
+        }
+
+        fn convert_data(
+            &mut self,
+            data: &PostOrderIterItem<&WitnessNode<J>>,
+            _: Inner<
+                &Arc<WitnessNode<J>>,
+                J,
+                &Option<Arc<WitnessNode<J>>>,
+                &Option<simplicity::Value>,
+            >,
+        ) -> Result<WitnessData<J>, Self::Error> {
+            Ok(WitnessData::new(data.node.arrow().shallow_clone()))
+        }
+    }
+
     let mut populator = Populator {
         inference_context: types::Context::new(),
         values,
     };
-    node.convert::<InternalSharing, _, _>(&mut populator)
-        .unwrap()
+    let populated = node
+        .convert::<InternalSharing, _, _>(&mut populator)
+        .unwrap();
+    populated
+        .convert::<InternalSharing, _, _>(&mut Pruner)
+        .expect("types of a complete program can be finalized")
 }
 
 /// Copy of [`node::ConstructData`] with an implementation of [`WitnessConstructible<WitnessName>`].
